@@ -502,7 +502,7 @@ pub fn run(args: &Args) -> ! {
         replay(&mut ctx, &v);
         ctx.finish();
     }
-    let n = ctx.tier.pick(60_000, 1_000_000);
+    let n = ctx.tier.pick(240_000, 1_000_000);
     let r = pt::check(&mut ctx, "c03", n, case_strategy(), |ctx, c| {
         let nt = is_nontrivial(c);
         ctx.case(if nt { Some(hash64(&(&c.names, c.with_generated, &c.method))) } else { None });
